@@ -369,6 +369,22 @@ def check(case, stats=None):
             return [Failure(f"C03:table-unreadable-after-writing:{tname}:{type(e).__name__}:{_where(e)}", {"error": repr(e)[:300]})]
         if diff is not None:
             return [Failure(f"C03:table-changed-by-writing:{tname}", diff)]
+        if tname == "fastq" and rows and all(r[1] for r in rows):
+            # the table read back from the FASTQ file, written to a FASTA (.fa) target: the FASTA layout of its names and sequences,
+            # whether the table was read lazily or eagerly
+            fa_bt = _load(TYPES["fasta"][1])
+            want_fa = canonical_body("fasta", [(r[0], r[1]) for r in rows])
+            for lazy in (True, False):
+                try:
+                    src = bnp.open(single, buffer_type=bt, lazy=lazy).read()
+                    target = os.path.join(d, "as_fasta.fa")
+                    with bnp.open(target, "w", buffer_type=fa_bt) as f:
+                        f.write(src)
+                    got_fa = open(target, "rb").read()
+                except Exception as e:
+                    return [Failure(f"C03:write-raised:fastq-table-to-fasta:{type(e).__name__}:{_where(e)}", {"error": repr(e)[:300], "lazy": lazy})]
+                if got_fa != want_fa:
+                    return [Failure("C03:not-canonical:fastq-table-to-fasta", {"expected": want_fa[:300], "actual": got_fa[:300], "lazy": lazy})]
         # (b) round trip, eager and lazy
         if rows:
             want = expected_read_rows(tname, rows)
